@@ -452,6 +452,7 @@ package graphql
 //@   props C06 C07
 //@   nosafety
 //@   requires c != nil && !held(&c.mu)
+//@   assigns class:list., class:atomic., class:M|string|*list.Element
 //@   ensures !held(&c.mu)
 //@   ensures !old(has(c.entries, key)) ==> !result1
 //@   ensures result1 ==> old(has(c.entries, key)) && old(as(c.entries[key].Value, "*graphql.planCacheItem").e.schema) == schema
@@ -461,6 +462,7 @@ package graphql
 //@ func PlanCache.store
 //@   props C06 C07
 //@   nosafety
+//@   assigns class:list., class:atomic., class:M|string|*list.Element, class:graphql.planCacheEntry, class:graphql.planCacheItem
 //@   requires c != nil && !held(&c.mu) && c.entries != nil && c.order != nil && c.order.len >= 0
 //@   ensures !held(&c.mu)
 //@   ensures old(has(c.entries, key)) ==> has(c.entries, key) && as(c.entries[key].Value, "*graphql.planCacheItem").e.schema == schema && as(c.entries[key].Value, "*graphql.planCacheItem").e.result == pr
@@ -493,6 +495,7 @@ package graphql
 //@ func PlanCache.Get
 //@   props C06 C12
 //@   nosafety
+//@   requires c == nil || (c.entries != nil && c.order != nil && c.order.len >= 0 && !held(&c.mu))
 //@   at return: assert c == nil ==> calls("lookup") == 0 && calls("store") == 0
 //@   at[C06,C12] call lookup: assert arg1 == schema && len(arg2) >= len(operationName) + 1 && (forall i in 0..len(operationName): arg2[i] == operationName[i]) && arg2[len(operationName)] == 0
 //@   at[C06,C12] call store: assert arg1 == schema && len(arg2) >= len(operationName) + 1 && (forall i in 0..len(operationName): arg2[i] == operationName[i]) && arg2[len(operationName)] == 0
